@@ -22,6 +22,13 @@ if os.path.exists(extra):
     for k, v in json.load(open(extra)).items():
         CLAIMED[k] = tuple(v)
 
+def flavors(pid):
+    try:
+        return set(t["flavor"] for t in json.load(open(os.path.join(V, "harness", pid, "targets.json")))["targets"])
+    except Exception:
+        return set()
+def serves(fl):
+    return [i for i in ids if i in CLAIMED and fl in flavors(i)]
 checks = []
 for i in ids:
     if i not in CLAIMED: continue
@@ -34,10 +41,10 @@ m = {"version": 1, "setup_cmd": "make -C /verif/engine",
      "hooks": {"guard": "PHOTON_VERIF", "enable": "no source hooks: checks compile /repo sources directly with clang (ASan, or the TSan pass with our own runtime) and interpose libc at link level",
                "baseline_off_cmd": "ctest --test-dir /repo/_build -j8 --timeout 900", "source_commits": [], "add_only": True},
      "engines": [
-        {"name": "core", "path": "engine/explorer.cpp", "serves_properties": [i for i in ids if i in CLAIMED and CLAIMED[i][0] == "model_checking"], "kind_free_text": "stateless deviation-bounded exhaustive explorer (choice-sequence DFS, levels by deviation count, deterministic replay)"},
-        {"name": "mv", "path": "engine/mv_rt.cpp", "serves_properties": ["C01"], "kind_free_text": "controlled scheduler for OS threads/vCPUs: scheduling point at every atomic/volatile op via the TSan ABI, virtual clock, modelled pthread blocking"},
-        {"name": "sv", "path": "engine/sv_rt.cpp", "serves_properties": ["C09"], "kind_free_text": "single-vCPU runtime: virtual clock, model event engine, deadlock detection, ASan"},
-        {"name": "seqx", "path": "engine/seqx.h", "serves_properties": ["C15"], "kind_free_text": "bounded-exhaustive enumeration against reference models, sharded, crash capture, ASan"}],
+        {"name": "core", "path": "engine/explorer.cpp", "serves_properties": [i for i in ids if i in CLAIMED and (flavors(i) & {"mv", "sv"})], "kind_free_text": "stateless deviation-bounded exhaustive explorer (choice-sequence DFS, levels by deviation count, deterministic replay)"},
+        {"name": "mv", "path": "engine/mv_rt.cpp", "serves_properties": serves("mv"), "kind_free_text": "controlled scheduler for OS threads/vCPUs: scheduling point at every atomic/volatile op via the TSan ABI, virtual clock, modelled pthread blocking"},
+        {"name": "sv", "path": "engine/sv_rt.cpp", "serves_properties": serves("sv"), "kind_free_text": "single-vCPU runtime: virtual clock, model event engine, deadlock detection, ASan"},
+        {"name": "seqx", "path": "engine/seqx.h", "serves_properties": serves("seqx"), "kind_free_text": "bounded-exhaustive enumeration against reference models, sharded, crash capture, ASan"}],
      "checks": checks,
      "notes": "see DESIGN.md; known findings in known_findings.json",
      "not_applicable": [{"property_id": i, "reason": NA_REASON} for i in ids if i not in CLAIMED]}
